@@ -21,7 +21,7 @@ T1 = ("T1/T2 (mathematical facts, not proved here): for a valid polygon (holes i
 
 PLAN = {
     'C01': dict(
-        modules=['c14_measures', 'c15_orient', 'c16_isnull', 'c02_point', 'c13_bounds', 'c01_box', 'glue_rep', 'glue_polygon', 'glue_wrappers'], level='other', stages=[RTC],
+        modules=['c14_measures', 'c15_orient', 'c16_isnull', 'c02_point', 'c13_bounds', 'c01_box', 'glue_rep', 'glue_polygon', 'glue_wrappers', 'glue_fixed'], level='other', stages=[RTC],
         trusted_base=COMMON_TRUST + [NUMPY_TRUST], assumptions=[MATH_ARITH, 'coordinates finite', T1, RTC_NOTE],
         explanation="proved: triangle_orientation, segments_intersect_1d, segments_intersect (under its call-site "
                     "precondition), point_intersects_polygon (= winding number), total_bounds_interleaved, "
@@ -29,7 +29,7 @@ PLAN = {
                     "run-time checked contract against the exact oracle (bounded)",
     ),
     'C02': dict(
-        modules=['c14_measures', 'c02_point'], level='other', stages=[RTC],
+        modules=['c14_measures', 'c02_point', 'glue_fixed', 'c15_orient', 'c16_isnull', 'c13_bounds', 'c01_box'], level='other', stages=[RTC],
         trusted_base=COMMON_TRUST + [NUMPY_TRUST], assumptions=[MATH_ARITH, 'coordinates finite', T1, RTC_NOTE],
         explanation="proved: segment_intersects_point, point_intersects_polygon, _perform_intersects_polygon, "
                     "_perform_intersects_multipoint, most of _perform_intersects_line (two invariants by stand-in); Point / "
@@ -98,7 +98,7 @@ PLAN = {
                     "every geometry column (2, 3, 12 partitions), pruning never loses an intersecting row",
     ),
     'C13': dict(
-        modules=['c13_bounds', 'c14_measures', 'glue_rep', 'glue_dask'], level='other', stages=[RTC],
+        modules=['c13_bounds', 'c14_measures', 'glue_rep', 'glue_dask', 'glue_fixed'], level='other', stages=[RTC],
         trusted_base=COMMON_TRUST, assumptions=[MATH_ARITH, RTC_NOTE],
         explanation="proved: the three bounds kernels for all lengths and all float values incl. NaN/inf (declarative reading "
                     "of the spec by inductive lemmas), the buffer layer of list arrays (buffer_values, buffer_offsets, "
@@ -126,14 +126,14 @@ PLAN = {
                     "unmodified); idempotence and the scalar view by the run-time checked contract (bounded)",
     ),
     'C16': dict(
-        modules=['c16_isnull', 'c13_bounds', 'c14_measures', 'c15_orient', 'c02_point', 'c01_box', 'glue_rep', 'glue_polygon', 'glue_wrappers', 'glue_take'], level='other', stages=[RTC],
+        modules=['c16_isnull', 'c13_bounds', 'c14_measures', 'c15_orient', 'c02_point', 'c01_box', 'glue_rep', 'glue_polygon', 'glue_wrappers', 'glue_take', 'glue_fixed'], level='other', stages=[RTC],
         trusted_base=COMMON_TRUST, assumptions=[RTC_NOTE],
         explanation="_perform_extract_isnull_bytemap proved (bit (offset+i) of the validity bitmap, for every offset); "
                     "__getitem__/take/concat/copy/pickle and view-determinacy of every derived quantity by the run-time "
                     "checked contract over random derivation histories (bounded)",
     ),
     'C17': dict(
-        modules=['c13_bounds', 'c14_measures', 'c15_orient', 'c16_isnull', 'c02_point', 'c01_box', 'glue_rep', 'glue_polygon', 'glue_wrappers'], level='other', stages=[RTC],
+        modules=['c13_bounds', 'c14_measures', 'c15_orient', 'c16_isnull', 'c02_point', 'c01_box', 'glue_rep', 'glue_polygon', 'glue_wrappers', 'glue_fixed'], level='other', stages=[RTC],
         trusted_base=COMMON_TRUST, assumptions=[MATH_ARITH, RTC_NOTE],
         explanation="inertness clauses that are inside proved contracts: an empty coordinate range gives a NaN bounds row and "
                     "contributes nothing to total bounds (C13 spec + lemmas), missing rows are skipped by the map kernels "
